@@ -3,10 +3,15 @@ use crate::fw::{Ctx, Violation};
 use serde_json::Value;
 
 pub mod c01;
+pub mod c02;
+pub mod c10;
+pub mod dech;
 
 pub fn run(ctx: &Ctx) -> i32 {
     match ctx.prop.as_str() {
         "C01" => c01::run(ctx),
+        "C02" => c02::run(ctx),
+        "C10" => c10::run(ctx),
         _ => {
             eprintln!("unknown property {}", ctx.prop);
             2
@@ -34,6 +39,8 @@ pub fn replay(path: &str) -> i32 {
     let case = v.get("case").cloned().unwrap_or(Value::Null);
     let viols: Option<Vec<Violation>> = match prop {
         "C01" => c01::replay(&case),
+        "C02" => c02::replay(&case),
+        "C10" => c10::replay(&case),
         _ => None,
     };
     match viols {
